@@ -415,3 +415,75 @@ pub fn nontrivial_key(case: &Case, c: &Compiled, junk: &JunkPlan, ev_hash: u64) 
     let h = crate::rng::hash_str(&format!("{}|{:?}|{:?}|{:?}|{:?}", case.prog.summary(), case.owners, case.outputs, case.inline, junk.kind));
     Some(combine(h, ev_hash))
 }
+
+// ---------------------------------------------------------------------------------------------
+// Known findings (genuine defects recorded, not repaired): attribution by call-site signature
+// ---------------------------------------------------------------------------------------------
+
+/// Which steps of the main graph carry private data (depend on a non-public input).
+pub fn private_steps(case: &Case) -> Vec<bool> {
+    use ciphercore_base::graphs::Operation as O;
+    let m = case.prog.main();
+    let mut private = vec![false; m.steps.len()];
+    let mut k = 0;
+    for (i, st) in m.steps.iter().enumerate() {
+        if let O::Input(_) = st.op {
+            private[i] = case.owners.get(k).map(|o| *o != crate::exec::Owner::Public).unwrap_or(false);
+            k += 1;
+        } else {
+            private[i] = st.deps.iter().any(|d| private[*d]);
+        }
+    }
+    private
+}
+
+/// Returns the id of the listed finding that explains this violation, if any. The predicates are
+/// deliberately narrow: the failing call site must be present in the program AND the symptom must
+/// be the recorded one; anything else is reported as a violation.
+pub fn known_match(case: &Case, v: &Violation) -> Option<&'static str> {
+    use ciphercore_base::graphs::Operation as O;
+    if std::env::var("VERIF_NO_KNOWN").is_ok() {
+        return None;
+    }
+    // KF-PRIVATE-PERMUTATION: ApplyPermutation whose permutation operand is private. The compiler
+    // shares it additively, the protocol needs a composition sharing p0*p1*p2, so the run fails
+    // with a "valid permutation" error (never a wrong value).
+    if (v.detail.contains("valid permutation") || v.detail.contains("Incorrect index")) && matches!(v.class.as_str(), "output-error" | "output-undefined" | "shared-output-slot-undefined") {
+        let private = private_steps(case);
+        let m = case.prog.main();
+        let hit = m.steps.iter().any(|st| matches!(st.op, O::ApplyPermutation(_)) && st.deps.len() == 2 && private[st.deps[1]]);
+        if hit {
+            return Some("KF-PRIVATE-PERMUTATION");
+        }
+    }
+    None
+}
+
+/// Replays the witnesses of the listed findings of `prop`; prints one KNOWN-FINDING line per finding
+/// that still reproduces. Never writes the findings file.
+pub fn report_known_findings(prop: &str) {
+    let kf = crate::harness::load_known_findings();
+    for f in &kf.findings {
+        if !f.properties.iter().any(|p| p == prop) {
+            continue;
+        }
+        let rp: Result<TriReplay, _> = serde_json::from_value(f.witness.clone());
+        match rp {
+            Ok(rp) => {
+                let no_known = std::env::var("VERIF_NO_KNOWN").is_ok();
+                let _ = no_known;
+                match replay_tri(&rp) {
+                    Ok(Some(v)) if known_match(&rp.case, &v).map(|id| id == f.id).unwrap_or(false) => {
+                        println!("KNOWN-FINDING: property={} {} [{}]", prop, f.what, f.id);
+                    }
+                    Ok(Some(v)) => {
+                        println!("note: witness of {} now fails differently: {} — {}", f.id, v.class, v.detail);
+                    }
+                    Ok(None) => println!("note: finding {} no longer reproduces on its witness", f.id),
+                    Err(e) => println!("note: witness of {} cannot be replayed: {}", f.id, e),
+                }
+            }
+            Err(e) => println!("note: witness of {} cannot be parsed: {}", f.id, e),
+        }
+    }
+}
